@@ -7,6 +7,7 @@ for v in a b; do
   [ -f $src/patch.diff ] || { echo "$ID-$v: no patch"; continue; }
   n=$v; [ -n "$ROUND2" ] && { [ $v = a ] && n=c || n=d; }
   [ -n "$ROUND3" ] && { [ $v = a ] && n=e || n=f; }
+  [ -n "$ROUND4" ] && { [ $v = a ] && n=g || n=h; }
   dst=seeded/$ID-$n
   mkdir -p $dst
   cp $src/patch.diff $src/demo.py $dst/ 2>/dev/null
